@@ -215,7 +215,7 @@ def run(case):
 
 
 def legs(tier):
-    return [Leg('dba', _case(5 if tier == 'quick' else 10), run, 3000, 100000, max_shrink_buckets=8)]
+    return [Leg('dba', _case(5 if tier == 'quick' else 10), run, 10000, 100000, max_shrink_buckets=8)]
 
 
 REGIONS = {}
